@@ -42,6 +42,9 @@ func corpusSpecs(valStr []string, eoas []common.Address) []Spec {
 	txNB := func(from int, call *Node) Step { return Step{T: "tx", From: from, Call: call, NB: true} }
 	days := func(n int64) Step { return Step{T: "advance", Secs: n * 86400, NB: true} }
 
+	pw := func(n uint, plus int64) string { return new(big.Int).Add(pow2(n), big.NewInt(plus)).String() }
+	tele := func(n int64) string { return new(big.Int).Mul(valTokens, big.NewInt(n)).String() } // n * 10^18 base units
+
 	hs := [][]Step{
 		// several events in one receipt; the failing native action first / in the middle / last; all fine
 		{tx(0, batch(0, del(0, tooMuch), del(0, "1000000")))},
@@ -89,6 +92,24 @@ func corpusSpecs(valStr []string, eoas []common.Address) []Spec {
 		{txNB(0, del(0, "1000000")), txNB(0, undel(0, "400000")), days(22)},
 		// rewards are paid to the delegator on the next action
 		{txNB(0, del(0, "1000000")), {T: "reward", Val: 0, Amt: "900000000", NB: true}, tx(0, withdraw(0)), tx(0, del(0, "5"))},
+		// AMOUNTS at and above 2^63, 2^64, 2^64+small, 2^128+small, 2^256-1 — one history per handler's amount path
+		// (40 TELE delegated first; 2^64 base units = 18.45 TELE), called directly, through a proxy and from a batch
+		{txNB(0, del(0, pw(63, 0))), txNB(0, del(1, pw(64, 0))), txNB(0, del(2, pw(64, 5))), tx(0, del(0, pw(63, -1)))},
+		{tx(0, del(0, pw(128, 5)))}, {tx(0, del(0, pw(255, 0)))}, {tx(0, del(0, pw(256, -1)))},
+		{txNB(0, del(0, tele(40))), txNB(0, undel(0, pw(63, 0))), tx(0, undel(0, pw(64, 7)))},
+		{txNB(0, del(0, tele(40))), tx(0, undel(0, pw(64, 0)))},
+		{txNB(0, del(0, tele(40))), tx(0, undel(0, pw(64, -1)))},
+		{txNB(0, del(0, tele(40))), tx(0, undel(0, pw(128, 5)))}, // must fail: more than the delegation
+		{txNB(0, del(0, tele(40))), tx(0, undel(0, pw(256, -1)))},
+		{txNB(0, del(0, tele(40))), txNB(0, redel(0, 1, pw(63, 0))), tx(0, redel(0, 2, pw(64, 9)))},
+		{txNB(0, del(0, tele(40))), tx(0, redel(0, 1, pw(64, 0)))},
+		{txNB(0, del(0, tele(40))), tx(0, redel(0, 1, pw(128, 5)))},
+		{txNB(1, proxy(0, 0, del(0, tele(30)))), txNB(1, proxy(0, 0, undel(0, pw(64, 11)))), tx(1, proxy(0, 0, redel(0, 1, pw(63, 3))))},
+		{tx(2, batch(0, del(0, tele(30)), undel(0, pw(64, 3)), redel(0, 1, pw(63, 1)), del(2, pw(64, 1))))},
+		// proposal ids and weights at the uint64 / int64 boundaries
+		{tx(0, vote(pw(63, 0), "1"))}, {tx(0, vote(pw(64, -1), "1"))},
+		{tx(0, votew("1", "1", pw(63, 0)))}, {tx(0, votew("1", "1", pw(64, -1)))}, {tx(0, votew("1", "1", pw(63, 100)))},
+		{tx(0, votew(pw(64, -1), "1", "100"))},
 	}
 	var out []Spec
 	for i, st := range hs {
